@@ -491,3 +491,8 @@ def paired_adapter_cutter_call(c):
     )
     c.mutant("trimmed_read = AdapterCutter.masked_read(read, [match])", "trimmed_read = AdapterCutter.masked_read(read1, [match])")
     c.mutant("info2.matches.append(match2)", "info2.matches.append(match1)")
+
+
+def extra_checks(res, tier, seed, known, log):
+    from .cnames import extra_checks_c03
+    extra_checks_c03(res, tier, seed, known, log)
